@@ -31,6 +31,9 @@
                                   position/checksum) satisfies `Good` again, and that replay delivered exactly the later events
     * `readAll_resume_older_meta` readAll(P2, meta of an older commit P1 < P2 of the same chunk) = ok (events after P2);
                                   `seek_older`; the C18-r5-2 mutation as `seekBad` with a `decide` witness
+    * `readAll_damaged_prefix_or_collision`   `crc_record_checked` lifted through readAll: arbitrary bytes behind a written prefix —
+                                  the prefix is delivered, and any crc record reached in the damaged part fails readAll with a
+                                  checksum error unless the stored value equals the checksum of the damaged bytes (collision)
     * `readAll_truncated`         the truncation theorems lifted through readAll (scan, sort, chunk choice, seek included)
     * `commit_covered_per_file`   every committed offset is covered, file by file (closed chunks incl. their ROTATE_TO), by that
                                   file's fsync; the C18-r3-2 mutation (`rotateFSBad`) violates it (`decide` witness)
@@ -937,6 +940,71 @@ theorem crc_record_checked {cfg : Cfg} (hupd : ∀ c a b, cfg.upd (cfg.upd c a) 
       split at hs' <;> cases hs'
     · intro hne; exact absurd (by simpa [crcMismatch] using hne) hmm
 
+/-! ### a damaged file list: prefix, error, or checksum collision -/
+
+/-- `t` is reached from `s` by exactly `n` continuing reader steps -/
+inductive ReachN (cfg : Cfg) : Nat → RS → RS → Prop
+  | refl (s : RS) : ReachN cfg 0 s s
+  | step {n : Nat} {s s' t : RS} : readStep cfg s = .cont s' → ReachN cfg n s' t → ReachN cfg (n + 1) s t
+
+theorem ReachN.toReach {cfg : Cfg} {n : Nat} {s t : RS} (h : ReachN cfg n s t) : Reach cfg s t := by
+  induction h with
+  | refl s => exact .refl s
+  | step hs _ ih => exact .step hs ih
+
+theorem readLoop_reachN {cfg : Cfg} {n : Nat} {s t : RS} (h : ReachN cfg n s t) (f : Nat) :
+    readLoop cfg (f + n) s = readLoop cfg f t := by
+  induction h with
+  | refl s => rfl
+  | step hs _ ih => rw [← Nat.add_assoc, readLoop_cont _ hs]; exact ih
+
+theorem finish_nil (cfg : Cfg) (r : FR) : (finish cfg r []).2.2.1 = r.err ∧ (finish cfg r []).2.2.2.1 = r.s.eng := by
+  unfold finish
+  cases h : r.err with
+  | none => simp [readFiles, h]
+  | some e => simp [h]
+
+/-- **readAll_damaged_prefix_or_collision.**  Any history (`Good`), appends `pre ++ post1`; behind the bytes of `post1` the last
+    chunk holds ARBITRARY bytes `dmg` (the written rest with a byte changed, anything).  `readAllFromPosition` from the commit after
+    `pre` (with its meta or without) first delivers exactly the events of `post1` — the written prefix in front of the damage —
+    and then runs the loop on `dmg` from the writer's position/checksum.  Whatever the loop does there: whenever it reaches, after
+    consuming `k` bytes of `dmg`, a complete crc record, `readAll` fails with a checksum error UNLESS the value stored in that
+    record equals `upd crc (first k bytes of dmg)` — i.e. unless the damaged bytes collide, under the checksum, with the bytes
+    the writer summed when it stored that value.  (`n + 1 ≤ fuel`: the loop's step budget reaches that record.) -/
+theorem readAll_damaged_prefix_or_collision (cfg : Cfg) (hm : cfg.evMagic < 4294967296) (hsvc : cfg.evMagic ∉ serviceMagics)
+    (hupd : ∀ c a b, cfg.upd (cfg.upd c a) b = cfg.upd c (a ++ b)) (hnil : ∀ c, cfg.upd c [] = c)
+    (D0 : List Bytes) (pre post1 : List Ap) (w : WS) (c0 : Cur) (dmg : Bytes) (ts0 : Nat) (si : Option Meta)
+    (hsz : ∀ a ∈ post1, a.body.length < 4294967296 ∧ a.ts < 4294967296)
+    (hb : (runAll cfg w (pre ++ post1)).offG < 9223372036854775808) (hg : Good cfg D0 w c0)
+    (wk : WS) (hwk : wk = runAll cfg w pre) (hsi : MetaFor wk.offG wk.crc si) (r : RA)
+    (hr : r = readAll cfg (D0 ++ allFilesK cfg w (pre ++ post1) c0.bytes dmg) wk.offG si ts0 ⟨wk.offG, [], []⟩) :
+    ∃ (s : RS) (fuel : Nat),
+      At s (runAll cfg wk post1).offG (runAll cfg wk post1).crc dmg ∧ s.eng.evs = (offsR cfg wk post1).reverse ∧
+      r.err = (readLoop cfg fuel s).err ∧ r.eng = (readLoop cfg fuel s).s.eng ∧
+      ∀ (n : Nat) (t : RS), ReachN cfg n s t → n + 1 ≤ fuel → atLeast t.rest levCrcSize = true → rd32 t.rest = magicCrc →
+        ∃ k, t.rest = dmg.drop k ∧
+          (UInt32.ofNat (rd32 ((dmg.drop k).drop 16)) ≠ cfg.upd (runAll cfg wk post1).crc (dmg.take k) → r.err = some .crc) := by
+  obtain ⟨s0, fuel0, hat0, hf0, hev0, hred⟩ := readAll_reduce cfg hupd D0 pre post1 w c0 dmg ts0 si hb hg.pre hg.acc hg.ok wk hwk hsi
+  have hbk : (runAll cfg wk post1).offG < 9223372036854775808 := by rw [hwk, ← runAll_append]; exact hb
+  obtain ⟨s, fuel, hat, _, hev, hfin⟩ := sim cfg hm hsvc post1 wk (dmg, []) s0 fuel0 hsz hbk hat0 hf0
+  rw [← hr] at hred
+  obtain ⟨_, _, h3, h4⟩ := hred
+  rw [hfin] at h3 h4
+  have hfn := finish_nil cfg (readLoop cfg fuel s)
+  simp only [List.map_nil] at h3 h4
+  rw [hfn.1] at h3; rw [hfn.2] at h4
+  refine ⟨s, fuel, hat, by rw [hev, hev0]; simp, h3, h4, ?_⟩
+  intro n t hreach hn h20 hmagic
+  obtain ⟨k, hk, hiff⟩ := crc_record_checked hupd hnil hreach.toReach h20 hmagic
+  rw [hat.hrest] at hk hiff
+  rw [hat.hcrc] at hiff
+  refine ⟨k, hk, fun hne => ?_⟩
+  obtain ⟨s', hs'⟩ := hiff.mpr hne
+  obtain ⟨f, rfl⟩ : ∃ f, fuel = (f + 1) + n := ⟨fuel - 1 - n, by omega⟩
+  rw [h3, readLoop_reachN hreach]
+  simp only [readLoop, hs']
+
+
 /-! ### writer loop: commits are monotone; at a commit nothing written is unsynced -/
 
 inductive WOp
@@ -1523,6 +1591,13 @@ example : (seekBad cfgX (hdrOf (filesR.getLastD [])) 204 ⟨192, wR.crc, 5⟩).m
           (match seek cfgX (hdrOf (filesR.getLastD [])) 204 (some ⟨192, wR.crc, 5⟩) 0 with
            | .ok x => decide ((x.1, x.2.2.1.length) = (204, (filesR.getLastD []).length - 48)) | .error _ => false) = true := by decide
 
+
+/-! very last round: a flipped byte -/
+
+-- `ReachN` for the round-1 flipped stream: two steps to the crc record that rejects it (`(readLoop cfgT 7 (sT flipped)).err = some .crc` above)
+set_option maxRecDepth 20000 in
+example : ReachN cfgT 2 (sT flipped) sF2 := .step (s' := sF1) (by decide) (.step (s' := sF2) (by decide) (.refl _))
+
 /-! durability order at rotation: the mutated variant -/
 
 /-- the seeded mutation C18-r3-2 as a variant: after ROTATE_TO was written to the old chunk, the final Sync goes to the NEW fd -/
@@ -1611,7 +1686,8 @@ example : (readAll cfgT [chunk0, encRotFrom 5 72 0 999 2] 0 none 0 eng0).err = n
   STILL NOT PROVED (covered by the correspondence + oracle of go/C18):
   * (closed in the last round: `restart_takes_replay_result` builds the restarted writer from the RESULT of readAll;
     `readAll_resume_older_meta` covers the meta of an older commit of the same chunk.)
-  * bit flips: `crc_record_checked` is the reduction form; no end-to-end `readAll` statement for a flipped file list.
+  * `readAll_damaged_prefix_or_collision` carries the side condition `n + 1 ≤ fuel` (the loop's step budget reaches the crc
+    record); that the budget `rest.length / 2 + 4` always suffices is not proved.
 -/
 
 end SH.C18
